@@ -1268,6 +1268,7 @@ fn new_rw<'a>(src: &'a Src, facts: &'a Facts) -> Rw<'a> {
 }
 
 struct EmitCtx<'a> {
+    probe_prop: Option<String>,
     probes: bool,
     probe_counter: &'a mut usize,
     probe_list: &'a mut Vec<serde_json::Value>,
@@ -1340,6 +1341,11 @@ fn emit_fn(src: &Src, facts: &Facts, spec: &FnSpec, vspec_name: &str, out: &mut 
     let mut probe = |ctx: &mut EmitCtx, what: String| -> String {
         if !ctx.probes || spec.opts.contains("no-probe") {
             return String::new();
+        }
+        if let Some(pp) = &ctx.probe_prop {
+            if !spec.props.iter().any(|x| x == pp) {
+                return String::new();
+            }
         }
         let k = *ctx.probe_counter;
         *ctx.probe_counter += 1;
@@ -1690,6 +1696,7 @@ fn main() {
     let mut outp = PathBuf::from("/verif/build/fb_verif.rs");
     let mut mapp = PathBuf::from("/verif/build/map.json");
     let mut probes = false;
+    let mut probe_prop: Option<String> = None;
     let mut i = 1;
     while i < args.len() {
         match args[i].as_str() {
@@ -1710,6 +1717,10 @@ fn main() {
                 i += 1;
             }
             "--probes" => probes = true,
+            "--probe-prop" => {
+                probe_prop = Some(args[i + 1].clone());
+                i += 1;
+            }
             a => {
                 eprintln!("unknown argument {a}");
                 std::process::exit(3);
@@ -1717,7 +1728,7 @@ fn main() {
         }
         i += 1;
     }
-    match run(&repo, &verif, &outp, &mapp, probes) {
+    match run(&repo, &verif, &outp, &mapp, probes, probe_prop) {
         Ok(()) => {}
         Err(e) => {
             eprintln!("vx-extract: UNDECIDED: {e}");
@@ -1726,7 +1737,7 @@ fn main() {
     }
 }
 
-fn run(repo: &Path, verif: &Path, outp: &Path, mapp: &Path, probes: bool) -> Result<(), String> {
+fn run(repo: &Path, verif: &Path, outp: &Path, mapp: &Path, probes: bool, probe_prop: Option<String>) -> Result<(), String> {
     // crate-wide facts
     let mut facts = Facts::default();
     let mut all_src: Vec<String> = vec![];
@@ -1805,7 +1816,7 @@ fn run(repo: &Path, verif: &Path, outp: &Path, mapp: &Path, probes: bool) -> Res
                         }
                         Directive::Fn(fs) => {
                             let s = cur.ok_or_else(|| format!("{name}: `fn` before `file`"))?;
-                            let mut ctx = EmitCtx { probes, probe_counter: &mut probe_counter, probe_list: &mut probe_list };
+                            let mut ctx = EmitCtx { probe_prop: probe_prop.clone(), probes, probe_counter: &mut probe_counter, probe_list: &mut probe_list };
                             emit_fn(s, &facts, fs, name, &mut out, &mut ctx)?;
                         }
                     }
